@@ -31,7 +31,7 @@ from physt._construction import (
     extract_nd_array,
     extract_weights,
 )
-from physt._util import deprecation_alias
+from physt._util import deprecation_alias, real_edges
 from physt.histogram1d import Histogram1D
 from physt.histogram_nd import HistogramND
 
@@ -184,7 +184,7 @@ class RadialHistogram(TransformedHistogramMixin, Histogram1D):
 
     @property
     def bin_sizes(self):
-        return (self.bin_right_edges**2 - self.bin_left_edges**2) * np.pi
+        return (real_edges(self.bin_right_edges) ** 2 - real_edges(self.bin_left_edges) ** 2) * np.pi
 
     @classmethod
     def _transform_correct_dimension(cls, value) -> np.ndarray:
@@ -239,7 +239,7 @@ class PolarHistogram(TransformedHistogramMixin, HistogramND):
     @property
     def bin_sizes(self):
         sizes = 0.5 * (
-            self.get_bin_right_edges(0) ** 2 - self.get_bin_left_edges(0) ** 2
+            real_edges(self.get_bin_right_edges(0)) ** 2 - real_edges(self.get_bin_left_edges(0)) ** 2
         )
         sizes = np.outer(sizes, self.get_bin_widths(1))
         return sizes
@@ -321,7 +321,7 @@ class SphericalHistogram(TransformedHistogramMixin, HistogramND):
     @property
     def bin_sizes(self):
         sizes1 = (
-            self.get_bin_right_edges(0) ** 3 - self.get_bin_left_edges(0) ** 3
+            real_edges(self.get_bin_right_edges(0)) ** 3 - real_edges(self.get_bin_left_edges(0)) ** 3
         ) / 3
         sizes2 = np.cos(self.get_bin_left_edges(1)) - np.cos(
             self.get_bin_right_edges(1)
@@ -404,7 +404,7 @@ class CylindricalHistogram(TransformedHistogramMixin, HistogramND):
     @property
     def bin_sizes(self):
         sizes1 = 0.5 * (
-            self.get_bin_right_edges(0) ** 2 - self.get_bin_left_edges(0) ** 2
+            real_edges(self.get_bin_right_edges(0)) ** 2 - real_edges(self.get_bin_left_edges(0)) ** 2
         )
         sizes2 = self.get_bin_widths(1)
         sizes3 = self.get_bin_widths(2)
